@@ -9,8 +9,8 @@ from ..rtc import runner
 
 LEVEL = "other"
 RULE = ("cubes with >= 3 sub-cubes (layouts with one or several multi-axis dimensions), every aggregate singly and in groups, both cube types; "
-        "a case = one monitored pooled calculate(); all distinct by construction")
-EXPECT = ["pooled-equals-serial", "task-frame-O1", "task-frame-O2", "task-frame-O3", "task-frame-O4", "pooled-path-engaged"]
+        "plus cubes with 65, 81, 65 and 130 sub-cubes (thorough: 257, 272, 1025) with three aggregate groups each; a case = one monitored pooled calculate(); all distinct by construction")
+EXPECT = ["pooled-equals-serial", "task-frame-O1", "task-frame-O2", "task-frame-O3", "task-frame-O4", "task-frame-O5", "pooled-path-engaged"]
 
 
 def static_part(ctx, which_funcs):
@@ -29,6 +29,36 @@ def static_part(ctx, which_funcs):
     return total, ok, failing
 
 
+def task_set_static():
+    """Structural obligation on the two calculate() ASTs: the pooled branch hands the pool, in ONE map call, the very iterable
+    expression the serial branch loops over, and applies the same task function.  -> (obligations, stale)"""
+    import ast
+
+    obls, stale = [], []
+    for mod, cls in (("ccubes", "ccube"), ("xcubes", "xcube")):
+        tree = ast.parse(env.read_source(mod + ".py"))
+        fn = next((m for c in tree.body if isinstance(c, ast.ClassDef) and c.name == cls for m in c.body if isinstance(m, ast.FunctionDef) and m.name == "calculate"), None)
+        name = "%s.%s.calculate/pooled-branch-maps-the-serial-branch-iterable-once" % (mod, cls)
+        ifs = [n for n in (fn.body if fn else []) if isinstance(n, ast.If) and ast.unparse(n.test) == "self.parallel"]
+        if len(ifs) != 1:
+            stale.append((name, "no single top-level `if self.parallel:`"))
+            continue
+        node = ifs[0]
+        maps = [n for b in node.body for n in ast.walk(b) if isinstance(n, ast.Call) and isinstance(n.func, ast.Attribute) and n.func.attr in ("map", "imap", "imap_unordered", "map_async", "apply_async", "starmap")]
+        loops_in_pooled = [n for b in node.body for n in ast.walk(b) if isinstance(n, (ast.For, ast.While, ast.ListComp, ast.GeneratorExp))]
+        ser = [n for n in node.orelse if isinstance(n, ast.For)]
+        if len(maps) != 1 or maps[0].func.attr != "map" or len(maps[0].args) != 2 or maps[0].keywords or loops_in_pooled or len(ser) != 1 or len(node.orelse) != 1:
+            stale.append((name, "pooled / serial branches are not `pool.map(f, it)` / `for x in it: f(x)`"))
+            continue
+        f_pooled, it_pooled = maps[0].args
+        body = ser[0].body
+        same_f = (len(body) == 1 and isinstance(body[0], ast.Expr) and isinstance(body[0].value, ast.Call) and ast.dump(body[0].value.func) == ast.dump(f_pooled)
+                  and len(body[0].value.args) == 1 and ast.dump(body[0].value.args[0]) == ast.dump(ast.Name(id=ser[0].target.id, ctx=ast.Load())) if isinstance(ser[0].target, ast.Name) else False)
+        ok = same_f and ast.dump(it_pooled) == ast.dump(ser[0].iter)
+        obls.append((name, bool(ok), "pooled: map(%s, %s); serial: for %s in %s: %s" % (ast.unparse(f_pooled), ast.unparse(it_pooled), ast.unparse(ser[0].target), ast.unparse(ser[0].iter), ast.unparse(body[0]) if body else "")))
+    return obls, stale
+
+
 def run(ctx):
     lem = lemma.prove()
     if lem["commute"][0] != "unsat":
@@ -44,13 +74,22 @@ def run(ctx):
             continue
         ctx.violation(core.Violation("C16", s.name, "store site in a task body is not provably confined to the task's own block / locals: %s (%s)" % (s.text, s.why),
                                      input=None, cls={"site": s.name}, solver={"site": s.text, "why": s.why}, no_input=True))
+    ts_obls, ts_stale = task_set_static()
+    for name, why in ts_stale:
+        ctx.notes.append("proof_stale: %s (%s) - decided by clause O5 of the frame monitor" % (name, why))
     mon, totals = runner.run_sharded(drive_sched.work, ctx.tier)
+    for name, ok_, text in ts_obls:
+        if not ok_:
+            o5 = [f for f in mon.failures if "O5" in f.obligation or "pooled-equals-serial" in f.obligation]
+            ctx.violation(core.Violation("C16", name, "the pooled branch does not hand the pool the serial branch's tasks: %s" % text, input=o5[0].input if o5 else None,
+                                         cls={"site": name}, solver={"site": text}, no_input=not o5))
     runner.report(ctx, mon, totals, lambda ob: True, RULE, expect_clauses=EXPECT)
+    ctx.coverage["static_task_set"] = {"obligations": len(ts_obls), "discharged": sum(1 for o in ts_obls if o[1]), "sites": [o[2] for o in ts_obls], "proof_stale": ts_stale}
     ctx.coverage["explanation"] = (
         "Schedule independence is derived, not explored: (1) per task, the substituted pool runs the real fill_one_cube closure from base, "
         "fully poisoned and outside-poisoned region contents and checks O1 (writes only its own block), O2 (blocks of distinct tasks are distinct "
         "full-length integer coordinates, hence disjoint), O3 (own block independent of other blocks' content), O4 (no attribute of the cube or "
-        "function objects changes except diagnostics) - %d monitored pooled evaluations this run; (2) z3 proves that two tasks satisfying O1-O3 "
+        "function objects changes except diagnostics), O5 (over all map calls of one calculate() every sub-cube of the scaffold is handed to the pool exactly once) - %d monitored pooled evaluations this run; (2) z3 proves that two tasks satisfying O1-O3 "
         "commute (%s in %.2fs; hypotheses consistent: %s; without O3 not provable: %s); (3) %d/%d static store-site obligations of the task bodies "
         "discharged; (4) the pooled result (tasks run in reverse order by the monitor) equals the serial result bit for bit."
         % (totals["driver_calls"], lem["commute"][0], lem["commute"][1], lem["canary-hypotheses-consistent"][0], lem["without-O3-not-provable"][0], ok, total))
